@@ -155,6 +155,7 @@ type Result struct {
 	Completed   int
 	Pruned      int
 	Unsupported map[string]int // reason -> paths
+	UnsupportedAt map[string][]int // reason -> decision prefix of one such path
 	Budget      int
 	Panics      map[string]int
 	Violations  []Violation
@@ -194,7 +195,7 @@ type Options struct {
 
 func (e *Engine) Explore(fn *ssa.Function, opt Options) *Result {
 	start := time.Now()
-	res := &Result{Harness: fn.String(), Unsupported: map[string]int{}, Panics: map[string]int{}, Reached: map[string]int{},
+	res := &Result{Harness: fn.String(), Unsupported: map[string]int{}, UnsupportedAt: map[string][]int{}, Panics: map[string]int{}, Reached: map[string]int{},
 		Notes: map[string]int{}, Funcs: map[string]int{}, Exhausted: true}
 	if opt.MaxViolations == 0 {
 		opt.MaxViolations = 5
@@ -279,6 +280,9 @@ func (e *Engine) Explore(fn *ssa.Function, opt Options) *Result {
 					res.Pruned++
 				case OutcomeUnsupported:
 					res.Unsupported[p.outcomeMsg]++
+					if _, ok := res.UnsupportedAt[p.outcomeMsg]; !ok {
+						res.UnsupportedAt[p.outcomeMsg] = append([]int{}, p.taken...)
+					}
 				case OutcomeBudget:
 					res.Budget++
 					res.Unsupported["budget: "+p.outcomeMsg]++
